@@ -7,7 +7,8 @@ ID = "C09"
 AREA = "c09"
 LEAN_PROPS = "Litep2pVerif.Props.C09"
 THEOREMS = ["held_not_closed", "idle_closed_at", "idle_run_closed_at", "poll_settles", "ping_no_prolong", "primary_secondary",
-            "inbound_negotiation_holds_connection"]
+            "inbound_negotiation_holds_connection",
+            "half_closed_substream_holds_connection"]
 CONSTS = ["KEEP_ALIVE_TIMEOUT_SECS"]
 CONST_TABLE = [
     ("KEEP_ALIVE_TIMEOUT_SECS", "src/transport/mod.rs",
